@@ -277,7 +277,7 @@ def tname(tx):
     if h == "HK":
         return "HK[" + ",".join(repr(x) for x in a) + "]"
     if h == "D":
-        return f"D[{tname(a[0])},{a[1]}]"
+        return f"D[{tname(a[0])},{a[1]}" + (",shared]" if len(a) > 2 else "]")
     if h == "G":
         return f"{a[0]}[" + ",".join(tname(x) for x in a[1:]) + "]"
     if h in ("U", "I"):
